@@ -1174,7 +1174,7 @@ def isinstance_one(R, E, v, t):
     if name in ("int", "integer", "int64", "int32"):
         return is_int_like(v) and not isinstance(v, bool) or (name == "int" and isinstance(v, bool))
     if name in ("float", "float64", "floating", "float32"):
-        return is_real_like(v)
+        return is_real_like(v) or v is NaN
     if name == "bool":
         return is_bool_like(v)
     if name == "str":
